@@ -18,14 +18,15 @@ Seed(di, si) == SpellDoc(Docs[di], IF si = 0 THEN DefaultStyle ELSE ExtraStyles[
 \* mutation m = <<kind, position, alphabet index>>
 Apply(t, m) ==
     LET i == m[2]  c == Alphabet[m[3]]
-    IN CASE m[1] = "trunc"   -> SubSeq(t, 1, i - 1)
+    IN CASE m[1] = "none"    -> t                                   \* the seed itself
+         [] m[1] = "trunc"   -> SubSeq(t, 1, i - 1)
          [] m[1] = "delete"  -> SubSeq(t, 1, i - 1) \o SubSeq(t, i + 1, Len(t))
          [] m[1] = "insert"  -> SubSeq(t, 1, i - 1) \o <<c>> \o SubSeq(t, i, Len(t))
          [] m[1] = "replace" -> SubSeq(t, 1, i - 1) \o <<c>> \o SubSeq(t, i + 1, Len(t))
          [] m[1] = "dup"     -> SubSeq(t, 1, i + 2) \o SubSeq(t, i, Len(t))
          [] m[1] = "swap"    -> SubSeq(t, 1, i - 1) \o <<t[i + 1], t[i]>> \o SubSeq(t, i + 2, Len(t))
 
-Muts(n) == {<<"trunc", i, 1>> : i \in 1..n} \cup {<<"delete", i, 1>> : i \in 1..n}
+Muts(n) == {<<"none", 1, 1>>} \cup {<<"trunc", i, 1>> : i \in 1..n} \cup {<<"delete", i, 1>> : i \in 1..n}
            \cup {<<k, i, a>> : k \in {"insert", "replace"}, i \in 1..n, a \in 1..Len(Alphabet)}
            \cup {<<"insert", n + 1, a>> : a \in 1..Len(Alphabet)}
            \cup {<<"dup", i, 1>> : i \in 1..(n - 2)} \cup {<<"swap", i, 1>> : i \in 1..(n - 1)}
